@@ -280,13 +280,29 @@ const (
 func ircStepRuns(entry, tier string, panics bool, extra ...interface{}) []HarnessRun {
 	base := map[string]int{"S": 2, "C": 1, "L": 4, "K": 3, "P": 1, "modelen": 2, "commas": 1}
 	if tier == "thorough" {
-		base = map[string]int{"S": 3, "C": 2, "L": 5, "K": 3, "P": 2, "modelen": 3, "commas": 1, "bans": 2, "secretnil": 1}
+		base = map[string]int{"S": 2, "C": 2, "L": 5, "K": 3, "P": 1, "modelen": 3, "commas": 1, "bans": 2, "secretnil": 1}
 	}
 	base = mergeParams(base, extra...)
+	// per-role string bounds of the quick tier ("L.client", "L.oper"): the operator role repeats most
+	// of the client role's paths, so it runs with strings one byte shorter
+	roleL := map[string]int{}
+	if tier != "thorough" {
+		roleL["oper"] = 3
+	}
+	for _, n := range []string{"client", "oper"} {
+		if v, ok := base["L."+n]; ok {
+			roleL[n] = v
+			delete(base, "L."+n)
+		}
+	}
 	var runs []HarnessRun
 	names := []string{"unregistered", "client", "oper", "services"}
 	for r, n := range names {
-		run := ircRun(n, entry, mergeParams(base, "role", r))
+		p := mergeParams(base, "role", r)
+		if v, ok := roleL[n]; ok && v < p["L"] {
+			p["L"] = v
+		}
+		run := ircRun(n, entry, p)
 		run.Panics = panics
 		runs = append(runs, run)
 	}
@@ -320,9 +336,9 @@ var ircAssumptions = []string{
 
 func ircBounds(tier string) map[string]interface{} {
 	if tier == "thorough" {
-		return map[string]interface{}{"client_sessions": 3, "services_link": "1 + 2 pseudo-clients (services role)", "channels": 2, "string_bytes": 5, "params": 3, "mode_string_bytes": 3, "bans_per_channel": 2, "map_iteration_order": "canonical (order independence is C01's obligation)"}
+		return map[string]interface{}{"client_sessions": 2, "services_link": "1 + 1 pseudo-client (services role; 2 for QUIT/KILL of the link in C01)", "channels": 2, "string_bytes": 5, "params": 3, "mode_string_bytes": 3, "bans_per_channel": 2, "map_iteration_order": "canonical (order independence is C01's obligation)"}
 	}
-	return map[string]interface{}{"client_sessions": 2, "services_link": "1 + 1 pseudo-client (services role)", "channels": 1, "string_bytes": 4, "params": 3, "mode_string_bytes": 2, "bans_per_channel": 1, "map_iteration_order": "canonical (order independence is C01's obligation)"}
+	return map[string]interface{}{"client_sessions": 2, "services_link": "1 + 1 pseudo-client (services role)", "channels": 1, "string_bytes": "4 (operator role 3; C15: client role 3; C01: 3)", "dedicated_runs": "compound mode string '+b'+2 bytes; text of 509 bytes (2+505+2); services NICK with 4 parameters; changed remote address", "params": 3, "mode_string_bytes": 2, "bans_per_channel": 1, "map_iteration_order": "canonical (order independence is C01's obligation)"}
 }
 
 var ircOutside = []string{"larger templates, longer strings, more parameters than the bound", "non-ASCII case mapping", "the product of several map iteration orders (C01)", "TOML/protobuf/JSON library internals"}
@@ -385,7 +401,7 @@ func init() {
 	registerCheck(&CheckDef{
 		ID: "C15",
 		Runs: func(tier string) []HarnessRun {
-			runs := ircStepRuns("verifHarness_C15_step", tier, false)
+			runs := ircStepRuns("verifHarness_C15_step", tier, false, "L.client", 3)
 			p := map[string]int{"data": p4(tier, 6, 10), "authlen": 3}
 			runs = append(runs, apiRun("post-sanitiser", "verifHarness_C15_post", p), apiRun("delete-sanitiser", "verifHarness_C15_delete", p))
 			// a body longer than one IRC line (512 bytes): the cut may not depend on where the separator sits
